@@ -82,7 +82,7 @@ theorem decodeIPv6_short (d : Bytes) (h : d.length < 40) : decodeIPv6 d = .err .
   simp [decodeIPv6, h]
 
 theorem decodeTCP_eq (b : Bytes) (h : 20 ≤ b.length) :
-    decodeTCP b = .ok (.tcp (oct b 0 * 256 + oct b 1) (oct b 2 * 256 + oct b 3) (oct b 12 / 16) 0
+    decodeTCP b = .ok (.tcp (oct b 0 * 256 + oct b 1) (oct b 2 * 256 + oct b 3) (oct b 12 / 16) (oct b 12 / 2 % 8)
       ((oct b 12 * 256 + oct b 13) % 512)) := by
   have : ¬ b.length < 20 := by omega
   simp (disch := omega) only [decodeTCP, this, if_false, at?_lt, ok_bind, pure_eq]
